@@ -24,6 +24,7 @@
 Require Import PV.Base.Prelude PV.Base.F64.
 Require Import PV.Model.Proto PV.Model.Desc PV.Model.Value PV.Model.Hist PV.Model.Vec PV.Model.Registry PV.Model.World.
 Require Import PV.Proofs.F64Facts PV.Proofs.HistFacts PV.Proofs.LocalFacts PV.Proofs.C12More.
+Require Import PV.Spec.SpecC12 PV.Proofs.C12Spec.
 Open Scope N_scope.
 
 (* ---- the shared metric = its direct updates + the flushed batches, for every history ---------- *)
@@ -222,6 +223,35 @@ Theorem c12_vec_remove_flushes w s vi cache v vals h c l :
   heffects w (OpLvRemove s vals) c = [HBatch l].
 Proof. exact (lv_remove_flushes w s vi cache v vals h c l). Qed.
 
+
+(* ---- the property as written from the text holds of the model ------------------------------------- *)
+(* [spec_c12] (Spec/SpecC12.v) is the executable statement of C12 written from the property text: it
+   keeps books of direct updates + flushed batches per shared metric, of the pending data per local
+   handle, of vectors and local-vector caches by label tuple, from the operations alone, and judges
+   every value shown.  It accepts the model's own observations for EVERY history in the domain - so
+   the oracle can never raise an alarm while the implementation agrees with the model.
+   Domain ([ops_in_domain], executable, see Proofs/C12Spec.v):
+     - every operation is one the C12 / C18 generators emit: OpCounter / OpCounterVec (f64, u64),
+       OpHistogram, OpHistVec, OpWith, OpRemove, OpReset, OpInc, OpIncBy, OpGet, OpObserve, OpSampleCount,
+       OpSampleSum, OpLocal, OpFlush, OpClear, OpClone, OpDrop, OpLvInc, OpLvObserve, OpLvRemove, OpTimer,
+       OpTimerStop, OpClosure, OpCollect (any slot arguments, dead and ill-typed ones included; wrong
+       label cardinalities; increments of any sign, NaN; wrapping u64);
+     - the label-value tuples mentioned do not collide under the 64-bit label hash ([no_collision]);
+     - updates through a local vector have the vector's numeric flavour ([lv_ok]);
+     - along the run no histogram and no local histogram reaches 2^63 observations.
+   Not in the language: the map forms OpWithMap / OpRemoveMap, gauges, registries (no generator of
+   C12 / C18 emits them). *)
+Theorem c12_spec_model ops : ops_in_domain ops = true -> spec_c12 ops (run world0 ops) = true.
+Proof. exact (C12Spec.c12_spec_model ops). Qed.
+
+(* the simulation behind it: books and world stay related (sim), every judgement of the engine on
+   the model's observation is true, for one step of any operation of the language; [KT] is any set of
+   label tuples on which the label hash is injective and which contains the operation's tuple *)
+Theorem c12_spec_step KT (Hinj : forall a b, In a KT -> In b KT -> H a = H b -> a = b) b ks w o :
+  sim KT b ks w -> books_small b = true -> op_in_lang o = true -> lv_ok b ks o = true ->
+  (forall t, op_tuple o = Some t -> In t KT) -> step_ok KT (b, ks) w o.
+Proof. exact (sim_step KT Hinj b ks w o). Qed.
+
 (* ---- non-vacuity ------------------------------------------------------------------------------------- *)
 Set Warnings "-inexact-float".
 Definition ex_o : Opts := mkOpts [] [] [99] [104] [] [].
@@ -274,6 +304,12 @@ Example c12_ex_vec :
      ORes (Ok tt); ON 2; OUnit; OUnit; ON 3; OUnit; ON 3].
 Proof. vm_compute. reflexivity. Qed.
 
+(* the corpus scenarios above (counter, histogram, local histogram vector) are inside the domain of
+   c12_spec_model, and the spec indeed accepts them *)
+Example c12_ex_domain :
+  ops_in_domain ex_counter_ops = true /\ ops_in_domain ex_hist_ops = true /\ ops_in_domain ex_vec_ops = true.
+Proof. vm_compute. repeat split; reflexivity. Qed.
+
 Check c12_counter : forall w ops c vc,
   nth_error (w_v w) c = Some vc ->
   nth_error (w_v (run_world w ops)) c = Some (vc_with vc (fold_left apply_veff (veffects_hist w ops c) (vc_val vc))).
@@ -302,6 +338,10 @@ Check c12_drop_counter_discards : forall w s,
   let wd := fst (step w (OpDrop s)) in
   w_v wd = w_v w /\ w_h wd = w_h w /\ w_vec wd = w_vec w /\ w_reg wd = w_reg w /\ slot wd s = HDead.
 
+Check c12_spec_model : forall ops, ops_in_domain ops = true -> spec_c12 ops (run world0 ops) = true.
+
+Print Assumptions c12_spec_model.
+Print Assumptions c12_spec_step.
 Print Assumptions c12_counter.
 Print Assumptions c12_histogram.
 Print Assumptions c12_histogram_observables.
